@@ -151,6 +151,11 @@ func (ex *Exec) call(c *ssa.Call) {
 	if ex.specialCall(callee, c, args) {
 		return
 	}
+	if ex.g.cs.Extern[callee.String()] {
+		ex.e.note("assumed (extern): " + callee.String() + " modifies no modelled state")
+		ex.setResult(c, ex.freshResult(c))
+		return
+	}
 	cc := ex.g.contracts[callee]
 	if cc != nil && (cc.Flags["pure"] || cc.Flags["inline"] || cc.Flags["uninterpreted"]) {
 		r := env.pureCall(callee, args, fv, ex.st, ex.entry, 1, c.Type())
